@@ -164,7 +164,7 @@ def check_case(case):
         for (xs, zs) in case['errors']:
             e = D.error_from(n, xs, zs)
             s = code.measure_syndrome(e)
-            with D.quiet():
+            with D.quiet(), D.time_limit():
                 c = np.asarray(dec.decode(s))
             if kind == 'coset-optimality':
                 # reference weights computed here from the per-qubit marginals (not through get_weights)
@@ -242,7 +242,7 @@ def oracle_cases(ctx, deep):
 
 
 def shrink(case):
-    for e in case['errors']:
+    for e in case['errors'][: (3 if case.get('decoder') in D.TIMED_OUT else None)]:
         c1 = dict(case, errors=[e])
         if check_case(c1) is not None:
             return c1
@@ -251,7 +251,8 @@ def shrink(case):
 
 def oracle(ctx, deep=False, broken=None):
     cases = oracle_cases(ctx, deep)
-    fails = first_failures(cases, check_case,
+    D.TIMED_OUT.clear()
+    fails = first_failures(cases, D.bounded(check_case),
                            key=lambda c: {'kind': c['kind'], 'decoder': c['decoder'], 'code': c['code']})
     for f in fails:
         f['input'] = shrink(f['input'])
